@@ -35,7 +35,7 @@ import (
 // ---------- workspace description and line protocol ----------
 
 type decl struct {
-	kind byte // 'b' bundle, 'f' file_set, 's' sub_builds, 'x' statements jsonx rejects (name = how, a[0] = how many)
+	kind byte // 'b' bundle, 'f' file_set, 'd' download (a[0] = Output), 's' sub_builds, 'x' statements jsonx rejects (name = how, a[0] = how many)
 	name string
 	a    []string // b: deps, f: files, s: dirs
 	b    []string // f: includes
@@ -91,6 +91,9 @@ func (d decl) enc() string {
 	}
 	if d.kind == 'x' {
 		return "x~" + d.name + "~" + d.a[0]
+	}
+	if d.kind == 'd' {
+		return "d~" + hs(d.name) + "~" + hs(d.a[0])
 	}
 	return "s~" + hlist(d.a, "+")
 }
@@ -186,6 +189,8 @@ func parseOp(line string) (*wsOp, bool) {
 						f.decls = append(f.decls, decl{kind: 'b', name: string(hx.UnHex(x[1])), a: unlist(x[2], "+")})
 					case len(x) == 4 && x[0] == "f":
 						f.decls = append(f.decls, decl{kind: 'f', name: string(hx.UnHex(x[1])), a: unlist(x[2], "+"), b: unlist(x[3], "+")})
+					case len(x) == 3 && x[0] == "d":
+						f.decls = append(f.decls, decl{kind: 'd', name: string(hx.UnHex(x[1])), a: []string{string(hx.UnHex(x[2]))}})
 					case len(x) == 3 && x[0] == "x":
 						f.decls = append(f.decls, decl{kind: 'x', name: x[1], a: []string{x[2]}})
 					case len(x) == 2 && x[0] == "s":
@@ -260,6 +265,9 @@ func writeWorkspace(root string, o *wsOp) error {
 					fmt.Fprintf(&b, "    Include: %s,\n", qlist(d.b))
 				}
 				b.WriteString("}\n\n")
+			case 'd': // never executed on a sound tree: no target depends on a download
+				fmt.Fprintf(&b, "download {\n    Name: %s,\n    URL: \"http://127.0.0.1:1/none\",\n    Checksum: \"sha256:00\",\n    Output: %s,\n}\n\n",
+					strconv.Quote(d.name), strconv.Quote(d.a[0]))
 			case 'x':
 				n, _ := strconv.Atoi(d.a[0])
 				for i := 0; i < n; i++ {
@@ -572,6 +580,14 @@ func read(o *wsOp) *reading {
 					ns = append(ns, &onode{name: name, rule: true, deps: deps})
 					ns = append(ns, &onode{name: name + ".fileset", deps: []string{name}})
 				}
+			case 'd':
+				name := caco3.VerifMakeRelPath(p, d.name)
+				if name == p || name == "" {
+					r.errClasses["noName"] = true
+					return
+				}
+				ns = append(ns, &onode{name: name, rule: true})
+				ns = append(ns, &onode{name: caco3.VerifMakeRelPath(p, d.a[0]), deps: []string{name}})
 			case 's':
 				for _, x := range d.a {
 					subs = append(subs, caco3.VerifMakeRelPath(p, x))
@@ -671,7 +687,10 @@ func judgeExecFailure(o *wsOp, impl string) (key, desc string, done bool) {
 	}
 	if !any {
 		if strings.HasPrefix(impl, "execfailed") {
-			return "", "", true // some other build step failed; not judged
+			if len(o.bad) == 0 {
+				return "unexpected-rule-failure", "the graph is sound and no rule of the fixture can fail, but a rule failed while executing: " + impl, true
+			}
+			return "", "", true
 		}
 		return "", "", false
 	}
@@ -816,7 +835,7 @@ func judge0(o *wsOp, impl string) (key, desc string) {
 			return "spurious-error", "the workspace has no duplicate, unnamed rule, reachable cycle or dangling dependency, but loading failed: " + impl
 		}
 		return "", ""
-	case strings.HasPrefix(impl, "built"):
+	case strings.HasPrefix(impl, "built"), strings.HasPrefix(impl, "execfailed"):
 		if expectErr {
 			cls := "dup-or-unnamed"
 			if !regErr && cycle {
@@ -1418,6 +1437,63 @@ func (g *gen) specialSources() {
 	}
 }
 
+// rules with explicit outputs (download) in the same, sibling and nested packages
+// naming the same output: a duplicated output name is an error; the downloads are
+// never targets, so nothing is fetched
+func (g *gen) sharedOutputs() {
+	b := func(n string, deps ...string) decl { return decl{kind: 'b', name: n, a: deps} }
+	d := func(n, out string) decl { return decl{kind: 'd', name: n, a: []string{out}} }
+	sub := func(x ...string) decl { return decl{kind: 's', a: x} }
+	cases := [][]bfile{
+		{{dir: "p", decls: []decl{b("ok"), d("d1", "o.bin"), d("d2", "o.bin")}}},                                            // same package
+		{{dir: "p", decls: []decl{b("ok"), sub("sub"), d("d1", "sub/o.bin")}}, {dir: "p/sub", decls: []decl{d("d2", "o.bin")}}},  // nested
+		{{dir: "p", decls: []decl{b("ok"), sub("q", "r"), d("d0", "x.bin")}}, {dir: "p/q", decls: []decl{d("d1", "../r/o.bin")}}, {dir: "p/r", decls: []decl{d("d2", "o.bin")}}}, // "../" stays in q: no clash
+		{{dir: "p", decls: []decl{b("ok"), d("d1", "a.bin"), d("d2", "b.bin")}}},                                            // sound
+		{{dir: "p", decls: []decl{b("ok"), d("d1", "o.bin")}}, {dir: "z", decls: []decl{d("d2", "/p/o.bin")}}},              // "/" stays in z: no clash
+		{{dir: "p", decls: []decl{b("ok"), d("d1", "x.fileset"), {kind: 'f', name: "x", a: []string{"s"}}}}},              // download output = a file set's output
+		{{dir: "p", decls: []decl{b("ok"), d("d1", "ok")}}},                                                                // output = a rule's name
+		{{dir: "p", decls: []decl{b("ok"), d("d1", "./o.bin"), d("d2", "x/../o.bin"), d("d3", "o.bin")}}},                  // three writers
+		{{dir: "p", decls: []decl{b("ok"), d("d1", "d1")}}},                                                                // output = its own name
+	}
+	for _, files := range cases {
+		dirs := []string{"p"}
+		for _, f := range files {
+			if f.dir == "z" {
+				dirs = append(dirs, "z")
+			}
+		}
+		for _, t := range [][]string{{"p/ok"}, {"p/ok", "p/s"}} {
+			g.add(&wsOp{dirs: dirs, files: files, srcs: []string{"p/s"}, targets: t}, true)
+			g.rep.Count("shared-output-names")
+		}
+	}
+}
+
+// histories in which a later Build on the same Builder reaches nodes (sources,
+// file sets, their outputs) the earlier ones did not load
+func (g *gen) growingHistories() {
+	b := func(n string, deps ...string) decl { return decl{kind: 'b', name: n, a: deps} }
+	f := func(n string, files []string, incs ...string) decl { return decl{kind: 'f', name: n, a: files, b: incs} }
+	decls := []decl{b("a", "s"), f("x", []string{"t", "u"}), f("y", []string{"x.fileset", "v"}), f("w", []string{"s"}, "p/x"), b("top", "y", "w"), b("lone")}
+	names := []string{"p/a", "p/x", "p/y", "p/w", "p/top", "p/lone", "p/s"}
+	for _, t1 := range names {
+		for _, t2 := range names {
+			if t1 == t2 {
+				continue
+			}
+			for _, ar := range []bool{false, true} {
+				g.add(&wsOp{dirs: []string{"p"}, files: []bfile{{dir: "p", decls: decls}}, srcs: []string{"p/s", "p/t", "p/u", "p/v"},
+					targets: []string{t1}, more: [][]string{{t2}}, ar: ar}, true)
+				g.rep.Count("history:later-build-reaches-new-nodes")
+			}
+		}
+	}
+	for _, h := range [][][]string{{{"p/lone"}, {"p/a"}, {"p/top"}}, {{"p/a"}, {"p/x"}, {"p/y", "p/w"}}, {{"p/s"}, {"p/w"}, {"p/top"}}} {
+		g.add(&wsOp{dirs: []string{"p"}, files: []bfile{{dir: "p", decls: decls}}, srcs: []string{"p/s", "p/t", "p/u", "p/v"},
+			targets: h[0], more: h[1:]}, true)
+	}
+}
+
 // random graphs over several packages
 func (g *gen) randomGraphs(n int, maxRules int) {
 	for i := 0; i < n; i++ {
@@ -1613,6 +1689,9 @@ func shrink(o *wsOp, key string, run func(string) string) *wsOp {
 						}
 						return d.b
 					}
+					if cur.files[fi].decls[di].kind == 'd' {
+						continue // its single list entry is the output name
+					}
 					if cur.files[fi].decls[di].kind == 'x' {
 						if which == 0 { // fewer rejected statements instead of fewer list entries
 							have, _ := strconv.Atoi(cur.files[fi].decls[di].a[0])
@@ -1688,7 +1767,7 @@ func main() {
 	rep.Rule = "one op = one scratch workspace (bundle / file_set / sub_builds declarations over 1-3 packages, source files) + targets, " +
 		"built by the real Builder in a child process (every second op with AlwaysRebuild): all graphs of 2 rules over {r0, r1, source, missing} and of 3 (thorough: 4) rules over the rules x target subsets, " +
 		"every declaration permutation x target subset of fixed shapes (diamond, chain, self-loop, 2/4-cycle, cycle behind the memo, dangling, duplicate, output/rule collision, file sets, unnamed) and random 2-3 rule graphs, " +
-		"dependencies / targets / Files naming directories, named pipes and the package directory, rules whose execution fails below dependents, histories of two and three Build calls on one Builder (first failing or sound), build files with several sub_builds statements, a BUILD.caco3 in the workspace root outside src, build files with 1..100 statements that do not parse (below, at, above the error cap), builders started in work dirs at depth 0..2 with relative, ./, ../ and absolute targets over same-named nodes, target lists with source files before, between and after rule targets, sub-build directory strings (., empty, x/.., q, /q, ../q ...) singly and in pairs, random multi-package graphs (duplicates across files, long cycles, dangling, collisions, unnamed), long chains; " +
+		"rules with explicit outputs sharing an output name across packages, histories whose later Build reaches nodes the earlier did not load, dependencies / targets / Files naming directories, named pipes and the package directory, rules whose execution fails below dependents, histories of two and three Build calls on one Builder (first failing or sound), build files with several sub_builds statements, a BUILD.caco3 in the workspace root outside src, build files with 1..100 statements that do not parse (below, at, above the error cap), builders started in work dirs at depth 0..2 with relative, ./, ../ and absolute targets over same-named nodes, target lists with source files before, between and after rule targets, sub-build directory strings (., empty, x/.., q, /q, ../q ...) singly and in pairs, random multi-package graphs (duplicates across files, long cycles, dangling, collisions, unnamed), long chains; " +
 		"distinct = distinct op line; every op is non-trivial (it loads at least one build file)"
 	work := f.Work
 	if work == "" {
@@ -1735,6 +1814,8 @@ func main() {
 		g.histories()
 		g.failingRules()
 		g.specialSources()
+		g.sharedOutputs()
+		g.growingHistories()
 		g.severalSubBuilds()
 		g.rootBuildFile()
 		g.shapes()
